@@ -64,6 +64,19 @@ class Backend:
         self.app = make_app(kind, ctx.tmp, app_id=f"c09{kind}{tag}")
         self.task = self.app.task(T.add)
         self.o = self.app.orchestrator
+        # on SQLite the invocations are FINISHED by another process (a second application object on the same file, which never
+        # declared a wait itself): waits are declared here, releases happen there, both answer the queries
+        self.o_fin = self.o
+        if kind == "sqlite":
+            import copy as _copy
+
+            from pynenc.app import Pynenc
+
+            Pynenc._clear_instances()
+            self.app2 = Pynenc(config_values=_copy.deepcopy(self.app.config_values))
+            Pynenc._clear_instances()
+            self.app2.task(T.add)
+            self.o_fin = self.app2.orchestrator
         self.names = names
         self.ids = {n: self.task(i).invocation_id for i, n in enumerate(names)}
         self.back = {v: k for k, v in self.ids.items()}
@@ -96,12 +109,14 @@ class Backend:
         elif k == "F":
             # the lifecycle way: RUNNING (owned by rA) -> final status through set_invocation_status
             inject_status(self.app, self.ids[op[1]], self.S.RUNNING, "rA", 0)
-            self.o.set_invocation_status(self.ids[op[1]], self.S(op[2]), rctx("rA"))
+            self.o_fin.set_invocation_status(self.ids[op[1]], self.S(op[2]), rctx("rA"))
         else:
             raise ValueError(op)
 
     def query(self, limit: int) -> list[str]:
-        return [self.back.get(i, f"?{i}") for i in self.o.get_blocking_invocations(limit)]
+        self.nq = getattr(self, "nq", 0) + 1
+        o = self.o_fin if self.nq % 2 == 0 else self.o        # both processes are asked, in turn
+        return [self.back.get(i, f"?{i}") for i in o.get_blocking_invocations(limit)]
 
 
 def model_lines(op: tuple) -> str:
@@ -790,6 +805,60 @@ def result_api(ctx: Ctx) -> None:
             flush(app)
 
 
+def slot_count_vs_new_waiter(ctx: Ctx) -> None:
+    """the runner loop counts its free slots (`_reclaim_available_slots`) while a task thread enters its first wait
+    (`_waiting_for_results` marks it as waiting): whenever the loop looks at the waiting marks - element by element, if it walks them -
+    another thread may add one.  The count must come out (between the value before and after the new mark), the loop must not die:
+    a dead loop joins threads that can never finish, and the awaited sub-task is never run."""
+    import threading
+
+    from pynenc.runner.thread_runner import ThreadInfo
+
+    class Marks(set):
+        """the waiting marks; a walk over them is interruptible between two elements, as any walk of a Python set is"""
+
+        hook = None
+
+        def __iter__(self):  # type: ignore[no-untyped-def]
+            it = set.__iter__(self)
+            for x in it:
+                if Marks.hook is not None:
+                    h, Marks.hook = Marks.hook, None
+                    h()
+                yield x
+
+    for kind in ("mem", "sqlite"):
+        app = make_app(kind, ctx.tmp, app_id=f"c09slots{kind}", runner_cls="ThreadRunner", min_parallel_slots=1, max_threads=1)
+        t = app.task(T.add)
+        runner = app.runner
+        runner._on_start()
+        stop = threading.Event()
+        invs = [t(i, 0) for i in range(3)]
+        ths = [threading.Thread(target=stop.wait, args=[20], daemon=True) for _ in invs]
+        for th in ths:
+            th.start()
+        try:
+            runner.threads = {inv.invocation_id: ThreadInfo(th, inv) for inv, th in zip(invs, ths)}
+            runner.waiting_invocation_ids = Marks([invs[0].invocation_id, invs[1].invocation_id])
+            Marks.hook = lambda: runner._waiting_for_results(invs[2].invocation_id, [invs[0].invocation_id])     # the third thread enters its first wait
+            err, slots = None, None
+            try:
+                slots = runner._reclaim_available_slots()
+            except BaseException as e:  # noqa: BLE001
+                err = f"{type(e).__name__}: {e}"
+            ctx.count()
+            ctx.distinct((kind, "slot-count-vs-new-waiter"))
+            lo, hi = runner.max_parallel_slots - 1, runner.max_parallel_slots
+            if err is not None or slots not in (lo, hi):
+                ctx.report(f"slot-count-breaks-on-new-waiter[{kind}]",
+                           f"[{kind}] three task threads, two of them waiting; the third enters its first wait while the loop counts the free slots: "
+                           + (f"the count raised {err} - the runner loop dies, nothing runs the awaited sub-tasks" if err else f"the count is {slots}, expected {lo} or {hi}"),
+                           {"kind": "slot-count", "backend": kind})
+        finally:
+            Marks.hook = None
+            stop.set()
+
+
 def run(ctx: Ctx) -> None:
     def gen() -> dict[str, str]:
         g = tr.gen()
@@ -806,6 +875,7 @@ def run(ctx: Ctx) -> None:
         part_a(ctx, drv)
         part_b_poll(ctx, drv)
         result_api(ctx)
+        slot_count_vs_new_waiter(ctx)
         part_b(ctx, drv)
     finally:
         drv.close()
